@@ -120,10 +120,10 @@ Qed.
 Example ex_vs_conv_repr : doc_repr (conv_vtt_ssa_m (ndoc ex_vs_doc ex_vs_so ex_vs_ro)).
 Proof. apply doc_reprb_ok. vm_compute. reflexivity. Qed.
 (* the plain view that comes back: centisecond times, the run texts of every line put together *)
-Example ex_vs_plain :
-  ptrunc ssa_unit (ptrunc 1000000 (vtt_to_plain ex_vs_doc)) =
+Definition ex_vs_expected : plain :=
   [ (1000000000%Z, 2500000000%Z, [s2l "Hello brave new world, & more"%string; s2l "second line"%string]);
     (3000000000%Z, 4000000000%Z, [s2l "x > y"%string]) ].
+Example ex_vs_plain : ptrunc ssa_unit (ptrunc 1000000 (vtt_to_plain ex_vs_doc)) = ex_vs_expected.
 Proof. vm_compute. reflexivity. Qed.
 Example ex_vs_roundtrip :
   exists vtt ssa d', write_vtt ex_vs_doc ex_vs_so ex_vs_ro = Ok vtt /\ convert_vtt_ssa vtt = Ok ssa /\ read_ssa ssa = Ok d' /\
